@@ -28,6 +28,8 @@ from the source on every run.
 import Nitime.Model.Num
 import Nitime.Generated.SpecIdx
 import Nitime.Generated.SpecWrites
+import Nitime.Model.C04Sess
+import Nitime.Generated.AnalyzerFs
 
 namespace Nitime.C04
 open Nitime.Num
@@ -417,8 +419,55 @@ def parseTReqs? (s : String) : Option (List TReq) :=
     | some [a, b, c, d, e] => some ⟨a, b, c, d, e⟩
     | _ => none
 
+/-- `ansess <method: none | nofs | p/q> <rate0 p/q> <ev> …` — a SpectralAnalyzer session with the getter table / constructor behaviour
+`Generated.AnalyzerFs` extracted from the current source; events `s<rate p/q>:<series id>`, `r` (reset), `psd`, `cpsd`, `periodogram`,
+`mt`, `fourier`; answer per read: `<getter>:<id of the series held>@<rate used p/q>` -/
+def parseRatQ? (s : String) : Option Rat :=
+  match s.splitOn "/" with
+  | [a] => a.toInt?.map fun n => (n : Rat)
+  | [a, b] => match a.toInt?, b.toNat? with
+    | some n, some d => if d = 0 then none else some ((n : Rat) / (d : Rat))
+    | _, _ => none
+  | _ => none
+
+def showRatQ (q : Rat) : String := if q.den = 1 then toString q.num else toString q.num ++ "/" ++ toString q.den
+
+def parseAnEv? (t : String) : Option Sess.Ev :=
+  if t = "r" then some .reset
+  else if t = "psd" then some (.read .psd)
+  else if t = "cpsd" then some (.read .cpsd)
+  else if t = "periodogram" then some (.read .periodogram)
+  else if t = "mt" then some (.read .multiTaper)
+  else if t = "fourier" then some (.read .fourier)
+  else if t.startsWith "s" then
+    match (t.drop 1).toString.splitOn ":" with
+    | [q, k] => match parseRatQ? q, k.toNat? with
+      | some q, some k => some (.setInput ⟨q, k⟩)
+      | _, _ => none
+    | _ => none
+  else none
+
+def getterName : Sess.Getter → String
+  | .psd => "psd" | .cpsd => "cpsd" | .periodogram => "periodogram" | .multiTaper => "mt" | .fourier => "fourier"
+
+def handleAnSess (args : List String) : String :=
+  match args with
+  | um :: r0 :: evs =>
+    let u : Option (Option (Option Rat)) :=
+      if um = "none" then some none else if um = "nofs" then some (some none) else (parseRatQ? um).map fun q => some (some q)
+    match u, parseRatQ? r0, evs.mapM parseAnEv? with
+    | some u, some r0, some es =>
+      let T := Nitime.Generated.AnalyzerFs.table
+      if Nitime.Generated.AnalyzerFs.ctor == .unknown || !Nitime.Generated.AnalyzerFs.setInputIsBase ||
+          [Sess.Getter.psd, .cpsd, .periodogram, .multiTaper, .fourier].any (fun g => (T g).src == .unknown) then "unsupported" else
+      let out := Sess.run T (Sess.init Nitime.Generated.AnalyzerFs.ctor ⟨r0, 0⟩ u) es
+      if out.isEmpty then "none" else " ".intercalate (out.map fun p => getterName p.1 ++ ":" ++ toString p.2.2 ++ "@" ++ showRatQ p.2.1)
+    | _, _, _ => "bad-args"
+  | _ => "bad-args"
+
 def handle (args : List String) : String :=
   match args with
+  | "ansess" :: rest => handleAnSess rest
   | ["periodogram", fs, nfft, sides, xs] =>
     match parseFloat? fs, nfft.toNat?, parseSig? xs with
     | some Fs, some N, some x =>
